@@ -17,10 +17,20 @@ def plan(tier, seed):
     all_leaves = list(L.values())
     iforms = catalog.index_forms()
     forms = catalog.slice_forms()
+    # two-step indexing: a lazy slice indexed again, with inner slices that overhang the outer block
+    big = catalog.big_annotated_leaves()
+    nested = dict(seeds=[L[n] for n in ["D33", "Td3", "S33", "P4", "D23", "D32c", "D19", "Dg3", "K33"]] + [big["Hc55"]],
+                  operands=[L["D23"]], small=[L["D22c"]], acts={"Sliced", "op_getitem"}, lvl=2, dim=9,
+                  forms=[{"t": "slice", "v": v} for v in ([0, 2, None], [1, 3, None], [None, 2, None], [1, None, None],
+                                                          [None, None, 2])],
+                  iforms=[{"t": "slice", "v": v} for v in ([1, 5, None], [0, 3, None], [None, None, None],
+                                                           [1, None, None], [None, 1, None])]
+                  + [{"t": "int", "v": 0}, {"t": "int", "v": -1}, {"t": "array", "v": [1, 0]}], stride=1)
     if tier == "quick":
         ops = [L[n] for n in ["D23", "D32c", "Dg2c"]]
         small = [L["D22c"], L["D23"]]
         return [
+            nested,
             dict(seeds=all_leaves, operands=ops, small=small, acts={"op_getitem"}, lvl=1, dim=12, iforms=iforms,
                  forms=forms, stride=1),
             dict(seeds=all_leaves, operands=ops, small=small, acts=BASE | {"op_getitem"}, lvl=2, dim=6,
@@ -29,6 +39,7 @@ def plan(tier, seed):
     ops = [L[n] for n in ["D22", "D23", "D32c", "Dg2c", "I2", "P3", "S33", "R0"]]
     small = [L["D22c"], L["D23"]]
     return [
+        nested,
         dict(seeds=all_leaves, operands=ops, small=small, acts={"op_getitem"}, lvl=1, dim=12, iforms=iforms,
              forms=forms, stride=1),
         dict(seeds=all_leaves, operands=ops, small=small, acts=BASE | {"op_getitem"}, lvl=2, dim=9, iforms=iforms,
